@@ -351,6 +351,8 @@ pub fn execute(exe: &Path, sc: &BScenario, dir: &Path) -> BReport {
                     token_map_dir: None,
                     fsize_limit: fault.as_ref().map(|f| f.1),
                     fsize_mode: fault.as_ref().map(|f| f.0.clone()),
+                    prelude: vec![],
+                    lex_probe: None,
                 };
                 let (code, sig, res) = run_build_child_sig(exe, &mk_spec(&py, &pl, fault), dir, "b");
                 let crashed = sig.is_some() || (code != Some(0));
